@@ -29,10 +29,19 @@ type Env struct {
 	CacheSz int
 	Cfg     config.TrieStorageManagerConfig
 	HolderSz uint64
+	// Gate, when set before the environment is built (see NewEnvGated), is called before every main-DB operation
+	Gate func(op string, key []byte)
+	// SnapshotDelay is the BatchDelaySeconds of the snapshot DB config
+	SnapshotDelay int
 }
 
 // NewEnv builds the stack (also used to rebuild it after a Restart over the same disk).
 func NewEnv(disk *simkit.SimDisk, cacheCap int, cfg config.TrieStorageManagerConfig, holderSize uint64) (*Env, error) {
+	return NewEnvGated(disk, cacheCap, cfg, holderSize, nil, 0)
+}
+
+// NewEnvGated is NewEnv with a gate in front of the main DB and a snapshot batch delay (simulated seconds).
+func NewEnvGated(disk *simkit.SimDisk, cacheCap int, cfg config.TrieStorageManagerConfig, holderSize uint64, gate func(op string, key []byte), snapshotDelay int) (*Env, error) {
 	if cacheCap < 1 {
 		cacheCap = 1
 	}
@@ -46,6 +55,10 @@ func NewEnv(disk *simkit.SimDisk, cacheCap int, cfg config.TrieStorageManagerCon
 	if err != nil {
 		return nil, err
 	}
+	var mainDB data.DBWriteCacher = su
+	if gate != nil {
+		mainDB = &GatedDB{Inner: su, Gate: gate}
+	}
 	if cfg.SnapshotsBufferLen == 0 {
 		cfg.SnapshotsBufferLen = 10
 	}
@@ -56,17 +69,17 @@ func NewEnv(disk *simkit.SimDisk, cacheCap int, cfg config.TrieStorageManagerCon
 		holderSize = 10000000
 	}
 	tsm, err := trie.NewTrieStorageManager(trie.NewTrieStorageManagerArgs{
-		DB:                     su,
+		DB:                     mainDB,
 		Marshalizer:            Marshalizer,
 		Hasher:                 Hasher,
-		SnapshotDbConfig:       config.DBConfig{FilePath: "/nonexistent/verif-sim", Type: "MemoryDB"},
+		SnapshotDbConfig:       config.DBConfig{FilePath: "/nonexistent/verif-sim", Type: "MemoryDB", BatchDelaySeconds: snapshotDelay},
 		GeneralConfig:          cfg,
 		CheckpointHashesHolder: hashesHolder.NewCheckpointHashesHolder(holderSize, 32),
 	})
 	if err != nil {
 		return nil, err
 	}
-	return &Env{Disk: disk, Store: su, TSM: tsm, CacheSz: cacheCap, Cfg: cfg, HolderSz: holderSize}, nil
+	return &Env{Disk: disk, Store: su, TSM: tsm, CacheSz: cacheCap, Cfg: cfg, HolderSz: holderSize, Gate: gate, SnapshotDelay: snapshotDelay}, nil
 }
 
 // Close stops the storage manager's goroutine; the disk keeps its data.
@@ -76,3 +89,31 @@ func (e *Env) Close() { _ = e.TSM.Close() }
 func (e *Env) NewTrie(maxLevel uint) (data.Trie, error) {
 	return trie.NewTrie(e.TSM, Marshalizer, Hasher, maxLevel)
 }
+
+// GatedDB wraps the storage unit handed to the trie storage manager. Gate is called, with no lock held, before
+// every operation: the simulator parks background goroutines (snapshot / checkpoint workers) there.
+type GatedDB struct {
+	Inner data.DBWriteCacher
+	Gate  func(op string, key []byte)
+}
+
+func (g *GatedDB) gate(op string, key []byte) {
+	if g.Gate != nil {
+		g.Gate(op, key)
+	}
+}
+
+// Put implements data.DBWriteCacher.
+func (g *GatedDB) Put(key, val []byte) error { g.gate("put", key); return g.Inner.Put(key, val) }
+
+// Get implements data.DBWriteCacher.
+func (g *GatedDB) Get(key []byte) ([]byte, error) { g.gate("get", key); return g.Inner.Get(key) }
+
+// Remove implements data.DBWriteCacher.
+func (g *GatedDB) Remove(key []byte) error { g.gate("remove", key); return g.Inner.Remove(key) }
+
+// Close implements data.DBWriteCacher.
+func (g *GatedDB) Close() error { return g.Inner.Close() }
+
+// IsInterfaceNil implements data.DBWriteCacher.
+func (g *GatedDB) IsInterfaceNil() bool { return g == nil }
